@@ -250,6 +250,103 @@ def gen_ops(rng, spec):
     return ops
 
 
+def explore_observers(ctx):
+    """auto-import watchers: a node that stops being local or active (deactivated, re-hosted) loses its watcher in the daemon's next pass,
+    so events under its root no longer lead to imports; the observer is a thread-less stand-in (events are delivered by the harness)"""
+    import pathlib
+    import shutil
+
+    from alpenhorn.daemon import auto_import as AI
+    from alpenhorn.daemon import update as U
+    from alpenhorn.io.default import DefaultNodeIO
+    from alpenhorn.scheduler import pool as P
+    from watchdog.events import FileCreatedEvent
+
+    class Watch:
+        def __init__(self, handler, path):
+            self.handler, self.path = handler, path
+
+    class StandInObserver:
+        def __init__(self, timeout=None):
+            self.watches = []
+
+        def start(self):
+            pass
+
+        def schedule(self, handler, path, recursive=True):
+            wt = Watch(handler, path)
+            self.watches.append(wt)
+            return wt
+
+        def unschedule(self, wt):
+            self.watches.remove(wt)
+
+        def stop(self):
+            pass
+
+        def join(self, *a):
+            pass
+
+    from vf.harness import daemon
+
+    base = ctx.tmp() / "observers"
+    saved = DefaultNodeIO.observer
+    for change in ("deactivate", "rehost", "auto_import_off", "none"):
+        shutil.rmtree(base, ignore_errors=True)
+        AI._observers.clear()
+        AI._watchers.clear()
+        DefaultNodeIO.observer = StandInObserver
+        spec = {"groups": [{"name": "g"}], "nodes": [{"name": "n1", "group": "g", "stype": "F", "host": "h1", "active": True, "auto_import": True}],
+                "acqs": [], "files": [], "copies": [], "reqs": [], "rules": [], "unregistered": [], "ireqs": []}
+        sim = daemon.Sim(base, spec)
+        try:
+            node = sim.nodes["n1"]
+            root = pathlib.Path(node.root)
+            (root / "acq1").mkdir(exist_ok=True)
+
+            def deliver(rel):
+                told = 0
+                for ob in AI._observers.values():
+                    for wt in list(ob.watches):
+                        wt.handler.on_created(FileCreatedEvent(str(root / rel)))
+                        told += 1
+                return told
+
+            sim.iterate("h1")
+            (root / "acq1" / "before.dat").write_bytes(b"1")
+            deliver("acq1/before.dat")
+            sim.iterate("h1")
+            if change == "deactivate":
+                w.StorageNode.update(active=False).where(w.StorageNode.id == node.id).execute()
+            elif change == "rehost":
+                w.StorageNode.update(host="h2").where(w.StorageNode.id == node.id).execute()
+            elif change == "auto_import_off":
+                w.StorageNode.update(auto_import=False).where(w.StorageNode.id == node.id).execute()
+            sim.iterate("h1")
+            sim.iterate("h1")
+            (root / "acq1" / "after.dat").write_bytes(b"22")
+            told = deliver("acq1/after.dat")
+            sim.iterate("h1")
+            sim.iterate("h1")
+            names = sorted(f.name for f in w.ArchiveFile.select())
+            ctx.count("observer-scenario")
+            ctx.distinct_add(("observers", change))
+            rp = {"family": "observers", "change": change, "registered": names, "watchers_left": told}
+            if "before.dat" not in names:
+                ctx.broke("harness", "observer scenario", f"the file that appeared while the node was watched was not imported: {names}")
+            if change == "none":
+                if "after.dat" not in names:
+                    ctx.broke("harness", "observer scenario", f"control: a watched node did not import the later file: {names}")
+            elif "after.dat" in names or told:
+                ctx.fail("C07:watcher-survives", f"node n1 was changed ({change}) and two passes of the daemon on h1 followed; {told} watcher(s) still received the event for acq1/after.dat, registered files: {names}", rp)
+        finally:
+            sim.shutdown()
+            DefaultNodeIO.observer = saved
+            AI._observers.clear()
+            AI._watchers.clear()
+    shutil.rmtree(base, ignore_errors=True)
+
+
 def late_corpus():
     out = []
     for change in (("cli", "node deactivate", ["n2"]), ("cli", "node modify", ["n2", "--host=elsewhere"]), ("cli", "node deactivate", ["n1"])):
@@ -307,6 +404,7 @@ def explore(ctx):
         if k == 0:
             ctx.sample({"history_ops": [list(o) for o in ops]})
     ctx.cov["foreign_copy_rows_compared"] = total
+    explore_observers(ctx)
 
 
 def search(ctx):
